@@ -1,0 +1,77 @@
+//! Control-point hooks for the external verification harness (/verif).
+//! Compiled only with `--features verif_hooks`; never enabled in normal builds.
+//! The hooks expose no internal data: each is a callback invoked at one
+//! control point so that a test driver can act (append to a file, clear the
+//! `running` flag, stop a follow loop) at exactly that point.
+
+use std::cell::RefCell;
+
+#[derive(Debug, Clone, Copy, PartialEq)]
+pub enum FollowAction {
+    Continue,
+    Stop
+}
+
+pub struct Hooks {
+    /// Called by `FollowFileIterator::next` each time a read ended before a newline was seen.
+    pub follow_retry: Option<Box<dyn FnMut() -> FollowAction>>,
+    /// Called by `FileExecutor::execute` after a line was read, before `running` is sampled: (file index, line index).
+    pub batch_line: Option<Box<dyn FnMut(usize, usize)>>,
+    /// Called by `JoinedTableData::execute` for every line of the joined file, before `running` is sampled: (line index).
+    pub join_line: Option<Box<dyn FnMut(usize)>>
+}
+
+thread_local! {
+    static HOOKS: RefCell<Hooks> = RefCell::new(Hooks { follow_retry: None, batch_line: None, join_line: None });
+}
+
+pub fn install(hooks: Hooks) {
+    HOOKS.with(|h| *h.borrow_mut() = hooks);
+}
+
+pub fn clear() {
+    install(Hooks { follow_retry: None, batch_line: None, join_line: None });
+}
+
+pub fn follow_retry() -> FollowAction {
+    let hook = HOOKS.with(|h| h.borrow_mut().follow_retry.take());
+    match hook {
+        Some(mut hook) => {
+            let action = hook();
+            HOOKS.with(|h| {
+                let mut hooks = h.borrow_mut();
+                if hooks.follow_retry.is_none() {
+                    hooks.follow_retry = Some(hook);
+                }
+            });
+            action
+        }
+        None => FollowAction::Continue
+    }
+}
+
+pub fn batch_line(file_index: usize, line_index: usize) {
+    let hook = HOOKS.with(|h| h.borrow_mut().batch_line.take());
+    if let Some(mut hook) = hook {
+        hook(file_index, line_index);
+        HOOKS.with(|h| {
+            let mut hooks = h.borrow_mut();
+            if hooks.batch_line.is_none() {
+                hooks.batch_line = Some(hook);
+            }
+        });
+    }
+}
+
+pub fn join_line(line_index: usize) {
+    let hook = HOOKS.with(|h| h.borrow_mut().join_line.take());
+    if let Some(mut hook) = hook {
+        hook(line_index);
+        HOOKS.with(|h| {
+            let mut hooks = h.borrow_mut();
+            if hooks.join_line.is_none() {
+                hooks.join_line = Some(hook);
+            }
+        });
+    }
+}
